@@ -46,9 +46,15 @@ theorem op_list_case (c : Ctx) (root : Val) (env : Env) (hr : EnvRel c root env)
       obtain ⟨vs, hv1, hv2⟩ := list_agree c root env hr xs hsub hlist
       have hsl := sList_ok root env xs vs hv1
       simp only [hsl] at h34 hres
-      have hu : unaryOps.contains k = false := singleton_if_nil _ _ h3
       have hres' : applyStrict k vs = .ok res := by simpa [bind, Except.bind] using hres
-      exact list_strict c hr.hign k (unproved_nil k hunp) hu xs vs hv2 h34 res hres'
+      cases hu : unaryOps.contains k with
+      | false => exact list_strict c hr.hign k (unproved_nil k hunp) hu xs vs hv2 h34 res hres'
+      | true =>
+        have htz : xs.any hasTzKeys = false := by
+          have := singleton_if_nil _ _ h3
+          rw [hu] at this
+          simpa using this
+        exact unary_list_strict c hr.hign k hu xs vs hv2 htz h34 res hres'
     · have hst' : strictOps.contains k = false := by simpa using hst
       simp only [hst', Bool.false_eq_true, if_false] at hre hres
       by_cases hand : k = "$and"
